@@ -38,6 +38,9 @@ def run(rep, ctx):
         c04.image_labels_add(rep, M, "R02.3")
         c04.span_through_minus_neighbour(rep, M, "R02.3")
         c04.correction_orientation(rep, M, "R02.3")
+        c04.builders_pick_alike(rep, M, "R02.3")
+        c04.per_copy_distance(rep, M, "R02.3")
+        c04.span_2d_form(rep, M, "R02.3")
     rep.rule("R02.4", "the crystal is searched on a working copy whose atoms are inside the cell: missing cell vectors completed, atoms outside along a non-periodic "
                       "axis always trigger enlargement and centring, the copy is wrapped (translated and unwrapped descriptions give the same answer; shared with C01 / C04)")
     with rep.guard("R02.4"):
